@@ -46,6 +46,14 @@ LEVEL_TEXT.update({
     "C11": "Bounded model checking of the acknowledgement protocol on the leader: SUCCED exactly when the configured number of acknowledgements (leader flush report + follower acks) has arrived, never before, exactly once; LOCK_ACK_WAITING for the same LockId meanwhile; on a negative ack or the wait timing out exactly one error reply, hold removed and the queued request served.",
 })
 
+LEVEL_TEXT.update({
+    "C09": "Bounded model checking of the replication ring only (the in-process kernel of the property): every record a consumer pops is the successor of the previous one, a gap surfaces as the 'out of buf' error and only when the consumer's position has left the ring, end-of-stream only when everything was read, size accounting exact.",
+})
+
+LEVEL_TEXT.update({
+    "C12": "Bounded model checking of the acceptor kernel: numbers never decrease; a proposal is accepted only above both numbers, with no outstanding commit, no online leader, and no newer log at this member or any known member; a commit only for the accepted number and once; two overlapping candidacies never both get this acceptor's commit (all 5-delivery sequences); CompareAofId antisymmetric. Recorded finding: accepted commits are not persisted across a restart.",
+})
+
 LEVEL_NOTE = {
     "C01": "Trusted: the symgo executor (validated per run by native replay of sampled path witnesses), z3. Schedules: single-threaded critical sections only (no interleaving of two requests inside LockDB.Lock is explored); time values drawn from classes {0,3}/{0,4}; millisecond flags and aof-timing flags fixed in these harnesses.",
     "C02": "Trusted: symgo (validated by native replay of sampled witnesses), z3. Single-threaded critical sections; holder list shapes <=3 (inline queue only); show/update flags excluded here (C06).",
@@ -57,8 +65,10 @@ LEVEL_NOTE = {
     "C07": "One key and one hold per run; value payloads, updates, several databases, file rotation (C16) and the AofChannel goroutine / 200 ms timer are outside; millisecond flag excluded. Arithmetic obligations that z3 cannot decide in 3 s go to cvc5 --solve-bv-as-int=sum.",
     "C16": "Crash images exist only in the executor's file model (C16_crash has no native replay; C16_renamefail is the native twin of its finding). One small history; appends concurrent with the compaction and the admin/start-up triggers are outside; contents of holds limited to key/LockId/depth.",
     "C08": "File model: full reads and whole-buffer writes; records without attached values (the value file is empty); real disks, fsync and page-cache reordering are outside. LoadAofFiles is driven directly (not Aof.LoadAndInit).",
+    "C09": "Kernel only: sockets, file transfer (sendFiles/recvFiles), handleInitSync's protobuf decision, the follower's replay/append/re-publish pipelines and the convergence of two real nodes are outside this check (nothing in the executor models two processes).",
     "C10": "Kernel only: Server.checkProtocol/handle choosing the forwarding wrapper, the TCP connection to the leader, the relay of frames by Transparency*ServerProtocol and the text-protocol relay are outside this check (no sockets in the executor).",
     "C11": "Reading of 'written to the leader's own log': handed to the log by Aof.PushLock; in majority mode with two followers their two acknowledgements complete the lock before the leader's flush report (reach tag succed-before-flush-report) — counted as satisfying the configured number. Value operations with rollback, demotion (SwitchToFollower/FlushDB) and grants from the wait queue are outside this harness.",
+    "C12": "Kernel only: the remote handlers (same rules behind protobuf decoding), ArbiterVoter.DoVote's candidate choice and majority counting over goroutines, 3..5-process clusters and the kill -9 experiment are outside this check.",
     "C13": "Trusted: symgo, z3. Frames <= 8 bytes; paths that would allocate more than 300 distinct sizes are cut (listed as unsupported in the evidence); text handlers, CALL and the 64-byte header parser are covered by separate harnesses where registered.",
     "C14": "Trusted: symgo, z3. crypto/md5 is an uninterpreted function.",
     "C20": "Trusted: symgo. Programs longer than the bound and constructor parameters above 3 are outside the claim.",
